@@ -13,6 +13,7 @@ import (
 	"strings"
 
 	kv "github.com/XiXi-2024/xixi-kv"
+	"github.com/XiXi-2024/xixi-kv/datatype"
 	"github.com/XiXi-2024/xixi-kv/datafile"
 	"github.com/XiXi-2024/xixi-kv/fio"
 	"github.com/XiXi-2024/xixi-kv/index"
@@ -88,6 +89,9 @@ type EngineRunner struct {
 	opStart        int
 	curWrites      []histWrite
 	skipRanges     [][2]int // event ranges (of Close / Backup) whose interior is not a crash point
+	dt             *dtRef
+	svc            *datatype.DataTypeService
+	svcDB          *kv.DB
 	lastBatch      time.Time // when the scenario created its latest batch (see continueImage)
 }
 
@@ -415,7 +419,11 @@ func (r *EngineRunner) Exec(f []string) (res string) {
 			if r.Verbose {
 				res = fmt.Sprintf("panic # %v", e)
 			}
-			r.fail("C09", "panic in %s: %v", strings.Join(f, " "), e)
+			prop := "C09"
+			if len(f) > 1 && dtOps[f[1]] {
+				prop = "C19"
+			}
+			r.fail(prop, "panic in %s: %v", strings.Join(f, " "), e)
 		}
 	}()
 	op := f[1]
@@ -720,6 +728,9 @@ func (r *EngineRunner) Exec(f []string) (res string) {
 	}
 	if strings.HasPrefix(op, "it") {
 		return r.execIter(f)
+	}
+	if dtOps[op] {
+		return r.execDT(f)
 	}
 	if op == "crash" || op == "crashscan" {
 		return r.execCrash(f)
